@@ -260,6 +260,25 @@ for side in ("include", "exclude"):
     )
 R.spec_funcs["getattr_"] = lambda it, obj, name: obj.fields[name]
 
+# ------------------------------------------------------------------------------------------------- get_all_operations: shared with C08 (same contract object, the C07 clause is `filters_decide_on_the_resolved_definition`)
+from contracts import C08 as _C08  # noqa: E402
+
+_GAO = "schemathesis.specs.openapi.schemas:BaseOpenAPISchema."
+for _key in ("schemathesis.schemas:BaseSchema.dispatch_hook", _GAO + "_resolve_path_item", "schemathesis.specs.openapi.schemas:in_scope", _GAO + "_resolve_operation", _GAO + "make_operation",
+             _GAO + "_into_err", "schemathesis.hooks:HookContext", _GAO + "_resolve_shared_parameters", _GAO + "collect_parameters", _GAO + "get_all_operations"):
+    if _key not in R.contracts:
+        R.contracts[_key] = _C08.REG.contracts[_key]
+for _name in ("all_paths", "list_of"):
+    R.spec_funcs.setdefault(_name, _C08.REG.spec_funcs[_name])
+R.exception_classes.setdefault("RefResolutionError", "Exception")
+R.opaque_classes.setdefault("Resolver", "schemathesis.specs.openapi.references:InliningResolver")
+# call-site view of this module's own (verified) _should_skip inside get_all_operations: an arbitrary decision, recorded
+_ss = R.contracts[_GAO + "_should_skip"]
+_ss.returns = lambda it, env: it.path.choose([(False, True), (True, True)], "deselected")
+_ss.call_ensures = {}
+_ss.modifies = {}
+_ss.effects = {"skipped": "ghost('skipped') + ([(path, method)] if result else [])", "skip_defs": "ghost('skip_defs') + [definition]"}
+
 LEVEL_TEXT = ("Deductive: the selection rule of the property is the machine-checked postcondition of the real FilterSet.match (loop invariant, sets of any size); "
               "matchers, attribute access, _should_skip (with an arbitrary stale shared cache), the GraphQL variant and the link rule carry their own contracts, "
               "all discharged by z3 from the current source on every run. Whole-document iteration is cross-checked by a bounded stand-in only.")
